@@ -1,7 +1,7 @@
 (* C16_Props.v — the property theorems of C16 and nothing else.
    Histories are ARBITRARY lists of actions; every action is one critical section of
    tracer.go / builder.go, so every interleaving of the goroutines is one such list. *)
-From V Require Import C16_Spec C16_Proofs C16_Conc C16_ConcProofs C16_Mw C16_MwProofs.
+From V Require Import C16_Spec C16_Proofs C16_Conc C16_ConcProofs C16_Mw C16_MwProofs C16_Run C16_RunProofs.
 Open Scope N_scope.
 
 (* The slot map always shows what the history says: the latest Init/Clear of the name
@@ -244,6 +244,37 @@ Theorem wire_forwards : forall fwd h s s',
 Proof. exact wire_forwards_proof. Qed.
 Print Assumptions wire_forwards.
 
+(* ---- the glue: runTestCasesForServer's call order, TracingRoundTripper's body wrapping ---- *)
+(* server_runner.go calls tracer.Init(req.TestName) BEFORE client.sendRequest.  For every batch
+   of distinct test names and EVERY peer schedule (completions, the response that starts the
+   fetch goroutine's Await, its Clear, its time-out: at any point after sendRequest of the
+   test case STARTED - also before it returns, also during later test cases' sends), the
+   fetch goroutine of each test case obtains the FIRST trace completed for its test name
+   (its context error if the TraceTimeout comes first) ... *)
+Theorem runner_trace_available : forall names sched i n,
+  NoDup names -> nth_error names i = Some n -> sched_ok (length names) sched = true ->
+  (run (runner_history InitBeforeSend names sched)).(waiters) (N.of_nat i)
+  = match first_done i (concat sched) with Some t => Got t | None => CtxErr end.
+Proof. exact runner_trace_available_proof. Qed.
+Print Assumptions runner_trace_available.
+
+(* ... and the Tracer keeps no slot of the batch afterwards *)
+Theorem runner_leaves_no_slot : forall names sched i n,
+  NoDup names -> nth_error names i = Some n -> sched_ok (length names) sched = true ->
+  (run (runner_history InitBeforeSend names sched)).(slots) n = None.
+Proof. exact runner_leaves_no_slot_proof. Qed.
+Print Assumptions runner_leaves_no_slot.
+
+(* TracingRoundTripper: EVERY kind of response body value (bytes, an empty body, the
+   http.NoBody sentinel of HTTP/1.1 Content-Length: 0 / 204 / 304 / HEAD) is wrapped, so each
+   round trip completes its trace exactly once as soon as the exchange is over for the caller
+   (round-trip error, Close, or a Read past the last chunk), whatever else the caller does *)
+Theorem roundtrip_completes_once_any_body : forall nm k y,
+  nm <> [] -> exchange_over k y ->
+  length (mwrun nm (client_script_k k y)).(m_b).(b_calls) = 1%nat.
+Proof. exact roundtrip_completes_once_any_body_proof. Qed.
+Print Assumptions roundtrip_completes_once_any_body.
+
 (* ---- non-vacuity ---- *)
 Definition a := bs "a".
 Definition b := bs "b".
@@ -406,3 +437,37 @@ Example ex_wire_no_wrapper :
   | Some s => (s.(wr) 0, s.(w_seen), (s.(w_tr)).(slots) a) = (None, [(0, false)], Some (mkSlot 0 true 7))
   | None => False end.
 Proof. vm_compute. reflexivity. Qed.
+
+(* the runner's order matters: a fast peer completes the trace and answers before sendRequest
+   returns.  Init before send: the waiter gets trace 7 and the slot is gone; Init after send
+   (seeded C16-10): the completion hits an unknown name, the waiter fails at once, and the
+   late Init leaves a slot nobody clears *)
+Definition fast_peer : list (list pev) := [[PComplete 0 7; PRespond 0; PClear 0]; []].
+Example ex_fast_peer_ok : sched_ok 1 fast_peer = true.
+Proof. reflexivity. Qed.
+Example ex_init_before_send :
+  let st := run (runner_history InitBeforeSend [a] fast_peer) in
+  st.(waiters) 0 = Got 7 /\ st.(slots) a = None.
+Proof. split; reflexivity. Qed.
+Example ex_init_after_send_loses_trace :
+  let st := run (runner_history InitAfterSend [a] fast_peer) in
+  st.(waiters) 0 = Failed /\ st.(slots) a = Some (mkSlot 0 false 0).
+Proof. split; reflexivity. Qed.
+(* two test cases; the first one's trace arrives while the second request is being sent, its
+   response after the last send returned *)
+Example ex_two_cases :
+  let sched := [[PRespond 0]; [PComplete 0 5; PClear 0; PComplete 1 6]; [PComplete 1 8; PRespond 1; PClear 1]] in
+  sched_ok 2 sched = true /\ (run (runner_history InitBeforeSend [a; b] sched)).(waiters) 1 = Got 6.
+Proof. split; reflexivity. Qed.
+
+(* the body kind matters: a round tripper that leaves http.NoBody unwrapped (seeded C16-12)
+   never completes the trace of a Content-Length: 0 response the caller read and closed *)
+Definition y_empty : cexch := mkCX (mkBody false [7] 0) 1 0 (mkBody false [] 0) [] [CRead; CClose].
+Example ex_nobody_wrapped :
+  length (mwrun a (client_script_k BNoBody y_empty)).(m_b).(b_calls) = 1%nat.
+Proof. reflexivity. Qed.
+Example ex_nobody_unwrapped :
+  (mwrun a (client_script_w (fun k => match k with BNoBody => false | _ => true end) BNoBody y_empty)).(m_b).(b_calls) = [].
+Proof. reflexivity. Qed.
+Example ex_exchange_over : exchange_over BNoBody y_empty.
+Proof. right. left. reflexivity. Qed.
